@@ -325,7 +325,12 @@ V_C06_CatchStepsOnce ==
 (* once the catch steps are finished the catching task is no longer running   *)
 V_C06_CaughtCompletes ==
   IF ~Quiescent THEN {}
-  ELSE UNION { { V("C06_CaughtCompletes", pid, t, {}) :
+  ELSE UNION { { V("C06_CaughtCompletes", pid, t,
+                     \* (KF_back_enclosing, second half: a `back` inside the catch steps leaves the
+                     \* backed old instance under the catching task, which counts completed
+                     \* children only and never finishes)
+                     {k \in {"KF_back_enclosing"} :
+                        \E u \in Desc(P(pid), t) : TS(pid, u).st = "backed" /\ TS(pid, u).prev = t}) :
                    t \in { x \in TaskKeys(pid) :
                             /\ TS(pid, x).catchDone /\ TS(pid, x).st = "running"
                             /\ \A u \in Desc(P(pid), x) : IsDone(TS(pid, u).st) } }
